@@ -899,7 +899,7 @@ func init() {
 		}
 		c.Knobs = map[string]int{"flipall": 256, "flips": 120, "overwrites": 30, "truncspan": 120}
 		if tier == "thorough" {
-			c.Knobs = map[string]int{"flipall": 4096, "flips": 600, "overwrites": 150, "truncspan": 400}
+			c.Knobs = map[string]int{"flipall": 1024, "flips": 300, "overwrites": 80, "truncspan": 250}
 		}
 		s := newSwarm(rng, []string{"put", "del", "batch"}, 10)
 		s.W["put"] += 5
